@@ -398,6 +398,23 @@ func konst(t reflect.Type, v any) gen {
 	return gen{fmt.Sprintf("%#v", v), func() reflect.Value { return reflect.ValueOf(v).Convert(t) }}
 }
 
+// WorkingPkg is the package gombok runs in: its structs are taken apart field by field
+// whatever the visibility; of a struct of another scratch package only the exported fields
+// are visible to the generated code, the others keep their zero value in every domain.
+const WorkingPkg = "scratchmod/w"
+
+func hiddenField(t reflect.Type, i int) bool {
+	return t.Field(i).PkgPath != "" && t.PkgPath() != WorkingPkg && strings.HasPrefix(t.PkgPath(), "scratchmod/")
+}
+
+func fieldDom(t reflect.Type, i int, p Opt, depth int) []gen {
+	if hiddenField(t, i) {
+		ft := t.Field(i).Type
+		return []gen{{"_", func() reflect.Value { return reflect.Zero(ft) }}}
+	}
+	return domOf(t.Field(i).Type, p, depth)
+}
+
 // pick2 are the two element values used inside pointers, options, slices and maps: the first
 // and the second one, for a struct element the first and the last ("all second values": the
 // one whose every field holds something, so that storage inside the element is reachable).
@@ -533,7 +550,7 @@ func domOf(t reflect.Type, p Opt, depth int) []gen {
 		}
 		comps := make([][]gen, t.NumField())
 		for i := range comps {
-			comps[i] = domOf(t.Field(i).Type, p, depth)
+			comps[i] = fieldDom(t, i, p, depth)
 		}
 		build := func(idx []int) gen {
 			idx = append([]int(nil), idx...)
@@ -621,7 +638,7 @@ func buildDomain[T any](p Opt) *domain[T] {
 	}
 	comps := make([][]gen, n)
 	for i := range comps {
-		c := domOf(t.Field(i).Type, p, 2)
+		c := fieldDom(t, i, p, 2)
 		limit := per
 		if p.sem(t.Field(i).Type) != "" && limit < 7 {
 			limit = 7 // an overridden field keeps all its values
@@ -1205,6 +1222,15 @@ func CheckShow[T any](o *Out, id string, inst fp.Show[T], p Opt) {
 		}
 	}
 	failCross, nCross := "", 0
+	failOrder, nOrder := "", 0
+	var names []string
+	if vs.d.t.Kind() == reflect.Struct && !isOption(vs.d.t) {
+		for i := 0; i < vs.d.t.NumField(); i++ {
+			if !hiddenField(vs.d.t, i) && !strings.HasPrefix(vs.d.t.Field(i).Name, "_") {
+				names = append(names, vs.d.t.Field(i).Name)
+			}
+		}
+	}
 	outs := map[string]bool{}
 	for i := range vs.v {
 		n++
@@ -1213,6 +1239,18 @@ func CheckShow[T any](o *Out, id string, inst fp.Show[T], p Opt) {
 		outs[s1] = true
 		if s1 != s2 && fail == "" {
 			fail = fmt.Sprintf("Show(%s) = %q, then %q", vs.d.descs[i], s1, s2)
+		}
+		if len(names) > 0 && failOrder == "" {
+			nOrder++
+			pos := 0
+			for _, nm := range names {
+				k := strings.Index(s1[pos:], nm+":")
+				if k < 0 {
+					failOrder = fmt.Sprintf("Show(%s) = %q: the fields are not shown with their names in declaration order %v (no %q after offset %d)", vs.d.descs[i], s1, names, nm+":", pos)
+					break
+				}
+				pos += k + len(nm) + 1
+			}
 		}
 		if p.Cross == "sorted" {
 			for f := 0; f < vs.d.nfield; f++ {
@@ -1239,6 +1277,9 @@ func CheckShow[T any](o *Out, id string, inst fp.Show[T], p Opt) {
 	}
 	if p.Cross == "sorted" {
 		o.res(id, "show-cross-typeclass-precedence", nCross, failCross)
+	}
+	if len(names) > 0 {
+		o.res(id, "show-fields-in-declaration-order", nOrder, failOrder)
 	}
 	if len(outs) > 1 {
 		o.Count("show-targets-with-distinct-outputs", 1)
